@@ -62,6 +62,9 @@ AuthAsserts(P, a, r) ==
     /\ A("refused", "a refused request consumed the owner's nonce",
          (MustAccept(P, a) /\ Refused(r) /\ r.err = "verify:nonce")
             => ~\E b \in Get(P.burn, a.ident, {}) : b >= a.nonce)
+    \* ... or for any other reason: whatever was refused in its name since its last accepted request left no trace
+    /\ A("refused", "the owner's fresh request is refused after refused requests in its name",
+         (MustAccept(P, a) /\ Get(P.burn, a.ident, {}) # {}) => ~Refused(r))
 
 \* a refused request changes nothing (C06): the whole projection must be the
 \* one logged before the request, and no agent may have been called
